@@ -119,24 +119,50 @@ theorem consistent_simplifyMulti (excl : List Char) (n : StrNode) (h : Consisten
   · simp [Consistent, reVal]
   · exact h
 
-/-- rule 2 never changes what the literal denotes, provided `@` is among the markers -/
-theorem simplifyF_denote (fmark : List Char) (hat : '@' ∈ fmark) (n : StrNode) (h : Consistent n) :
-    denote (reparse (simplifyF fmark n)) = denote (reparse n) ∧
-    (simplifyF fmark n).multi = n.multi ∧ (simplifyF fmark n).raw = n.raw := by
-  unfold simplifyF
+/-- rule 2 never changes what the literal denotes, for EVERY recogniser that accepts at least the values the
+interpreter substitutes into (`hasSubst`, the regex of `InterpreterBase.evaluate_fstring`) -/
+theorem simplifyFWith_denote (keep : List Char → Bool) (hk : ∀ v, hasSubst v = true → keep v = true)
+    (n : StrNode) (h : Consistent n) :
+    denote (reparse (simplifyFWith keep n)) = denote (reparse n) ∧
+    (simplifyFWith keep n).multi = n.multi ∧ (simplifyFWith keep n).raw = n.raw := by
+  unfold simplifyFWith
   split
   · rename_i hc
-    have hfm : (fmark.any fun x => n.value.contains x) = false := by
-      cases hh : (fmark.any fun x => n.value.contains x) with
+    have hkeep : keep n.value = false := by
+      cases hh : keep n.value with
       | false => rfl
       | true => rw [hh] at hc; simp at hc
-    have hno := not_mem_of_any_false fmark n.value '@' hat hfm
+    have hno : hasSubst n.value = false := by
+      cases hs : hasSubst n.value with
+      | false => rfl
+      | true => rw [hk _ hs] at hkeep; exact absurd hkeep (by simp)
     rw [h] at hno
     refine ⟨?_, rfl, rfl⟩
     rw [denote_reparse, denote_reparse]
     have e : reVal { n with fstr := false } = reVal n := by simp [reVal]
-    simp [e, hasSubst_no_at _ hno]
+    simp [e, hno]
   · exact ⟨rfl, rfl, rfl⟩
+
+/-- a substitution site contains an `@` -/
+theorem mem_at_of_hasSubst (v : List Char) (h : hasSubst v = true) : '@' ∈ v := by
+  cases hm : decide ('@' ∈ v) with
+  | true => simpa using hm
+  | false =>
+    have : '@' ∉ v := by simpa using hm
+    rw [hasSubst_no_at v this] at h
+    exact absurd h (by simp)
+
+/-- the coded recogniser (`'@' in value`) accepts everything the interpreter substitutes into -/
+theorem markerKeep_of_hasSubst (fmark : List Char) (hat : '@' ∈ fmark) (v : List Char)
+    (h : hasSubst v = true) : markerKeep fmark v = true := by
+  have hm := mem_at_of_hasSubst v h
+  simp only [markerKeep, List.any_eq_true]
+  exact ⟨'@', hat, by simp [hm]⟩
+
+theorem simplifyF_denote (fmark : List Char) (hat : '@' ∈ fmark) (n : StrNode) (h : Consistent n) :
+    denote (reparse (simplifyF fmark n)) = denote (reparse n) ∧
+    (simplifyF fmark n).multi = n.multi ∧ (simplifyF fmark n).raw = n.raw :=
+  simplifyFWith_denote (markerKeep fmark) (markerKeep_of_hasSubst fmark hat) n h
 
 /-- rule 1 on a parsed node, when the excluded list holds quote and backslash -/
 theorem simplifyMulti_denote (excl : List Char) (hq : '\'' ∈ excl) (hb : '\\' ∈ excl)
